@@ -190,6 +190,21 @@ def run_case(desc):
             _fit("partial_fit", X[h:], y[h:], None if sw is None else sw[h:])
             path = "partial_fit"
         else:
+            if (desc["seed"] >> 17) % 3 == 0:
+                # the object has been fitted before, on fully labelled data: fit starts from scratch, whatever it learned
+                # then (a warm start, a stored window, counts) must not show in the model of the second training set
+                y_full = np.empty(y.shape, dtype=dt)
+                if multi:
+                    for a in range(n_annot):
+                        y_full[:, a] = [classes[i] for i in y_id]
+                else:
+                    y_full[:] = [classes[i] for i in y_id]
+                try:
+                    _fit("fit", X, y_full, None)
+                    ctx += " refit-after-labelled-fit"
+                    contracts.count("C11.refit-history")
+                except Exception:
+                    pass
             _fit("fit", X, y, sw)
             path = "fit"
     except steps.StepBudgetExceeded as ex:
